@@ -56,9 +56,15 @@ type Recorder struct {
 	Events []Event
 	seq    int64
 	StepFn func() int64
+	// Quiet: record nothing (race-detector runs: a recorder shared by all instances orders every two goroutines
+	// that enter a backend callback, which hides races between sessions)
+	Quiet bool
 }
 
 func (r *Recorder) add(e Event) {
+	if r.Quiet {
+		return
+	}
 	r.mu.Lock()
 	defer r.mu.Unlock()
 	r.seq++
